@@ -117,7 +117,7 @@ pub unsafe extern "C" fn syscall(num: c_long, a1: usize, a2: usize, a3: usize, a
                 r + k as c_long
             };
         }
-        if (cmd == FUTEX_WAIT || cmd == FUTEX_WAIT_BITSET) && bbguard::is_worker() && !bbguard::is_internal() {
+        if (cmd == FUTEX_WAIT || cmd == FUTEX_WAIT_BITSET) && !bbguard::is_internal() && (bbguard::is_worker() || crate::sim::is_sim_driver()) {
             let left = timespec_ns(a4 as *const libc::timespec).map(|t| {
                 if cmd == FUTEX_WAIT {
                     t // relative
@@ -149,7 +149,7 @@ pub unsafe extern "C" fn syscall(num: c_long, a1: usize, a2: usize, a3: usize, a
 /// None needed.
 #[no_mangle]
 pub unsafe extern "C" fn sched_yield() -> c_int {
-    if bbguard::is_worker() && !bbguard::is_internal() && crate::sim::spin_yield_emulated() {
+    if !bbguard::is_internal() && (bbguard::is_worker() || crate::sim::is_sim_driver()) && crate::sim::spin_yield_emulated() {
         return 0;
     }
     raw6(libc::SYS_sched_yield, 0, 0, 0, 0, 0, 0) as c_int
